@@ -224,13 +224,27 @@ def strip_comments(text: str) -> str:
     return "".join(out)
 
 
+_SEC_OPEN = re.compile(r"^\s*(Section|Module(?:\s+Type)?|Module\s+Import|Module\s+Export)\s+([A-Za-z0-9_']+)\b(?![^.]*:=)")
+_SEC_END = re.compile(r"^\s*End\s+([A-Za-z0-9_']+)\s*\.")
+_VARLIKE = re.compile(r"^\s*(Variable|Variables|Hypothesis|Hypotheses|Context)\b")
+
+
 def scan_forbidden(paths: Iterable[Path]) -> list[str]:
+    """Forbidden constructs, and Variable/Hypothesis/Context outside a Section (which declare axioms)."""
     bad = []
     for p in paths:
         clean = strip_comments(p.read_text())
+        stack: list[str] = []
         for n, line in enumerate(clean.splitlines(), 1):
             if FORBIDDEN.search(line):
                 bad.append(f"{p}:{n}: {line.strip()[:120]}")
+            m = _SEC_OPEN.match(line)
+            if m:
+                stack.append("S" if m.group(1) == "Section" else "M")
+            elif _SEC_END.match(line) and stack:
+                stack.pop()
+            elif _VARLIKE.match(line) and "S" not in stack:
+                bad.append(f"{p}:{n}: outside a Section: {line.strip()[:100]}")
     return bad
 
 
@@ -311,6 +325,14 @@ def proof_leg(ctx: Ctx, gen_files: dict[str, str], prop_file: str, timeout: int 
         missing = [nm for _, nm, _ in thms if nm not in axmap]
         if missing:
             ctx.log("note: no Print Assumptions for", missing)
+        if not ctx.quick and os.environ.get("VERIF_NO_COQCHK") != "1":
+            okc, outc = coqchk(ctx, "PyxelGen." + dst.stem)
+            (ctx.build / "coqchk.txt").write_text(outc)
+            ctx.cov["coqchk"] = dict(ok=okc, axioms=sorted(set(re.findall(r"(?m)^\s+([A-Za-z_][A-Za-z0-9_.']+)\s*$", outc.split("Axioms:")[-1])))[:40] if "Axioms:" in outc else [],
+                                     tail=tail(outc, 6))
+            if not okc:
+                all_ok = False
+                ctx.broken.append(Broken("theorem", f"coqchk {prop_file}", tail(outc, 20)))
     else:
         all_ok = False
         bad_nm = locate_error(text, se, names)
